@@ -608,10 +608,23 @@ def main(argv):
         os.makedirs(d, exist_ok=True)
         vlib.write_tree(d, {f[0]: f[1] for f in files})
         groups_b.append({"dir": d, "files": files})
-    G.update(binary=binary, root=root, rules=rules, a=groups_a, b=groups_b, modes_a=modes, modes_b=modes_b)
+    # html sweep: the contents of <= 2 line kinds as the body of a <script> element of an .html file
+    # (host document + injected JavaScript document, whose nodes carry positions of the whole file);
+    # the JavaScript scan rules then report matches inside the embedded region
+    groups_h = []
+    small = [c for c in contents if c[2].count("+") <= 1]
+    for gi in range(0, len(small), per_dir):
+        chunk = small[gi:gi + per_dir]
+        files = [(f"h{gi + i:05d}.html", "<p>é</p>\n<script>\n" + c + "</script>\n<p>t</p>\n", cnt, "html-script:" + desc) for i, (c, cnt, desc) in enumerate(chunk)]
+        d = os.path.join(root, "h", f"g{gi // per_dir:04d}")
+        vlib.write_tree(d, {f[0]: f[1] for f in files})
+        groups_h.append({"dir": d, "files": files})
+    modes_h = [m for m in modes if m["cmd"] in ("scanFix", "scanNoFixU")]
+    G.update(binary=binary, root=root, rules=rules, a=groups_a, b=groups_b, h=groups_h, modes_a=modes, modes_b=modes_b, modes_h=modes_h)
 
     items = [("b", gi, mi) for gi in range(len(groups_b)) for mi in range(len(modes_b))]
     items += [("a", gi, mi) for gi in range(len(groups_a)) for mi in range(len(modes))]
+    items += [("h", gi, mi) for gi in range(len(groups_h)) for mi in range(len(modes_h))]
     results = pmap_procs(items)
 
     total = new_stats()
@@ -645,8 +658,9 @@ def main(argv):
                  "context settings); file-count sweep: every directory that is a sequence of <= %d files over {one match, "
                  "two matches, no match} (%d directories) X %d modes without context. A (file, mode) pair is non-trivial "
                  "when the file has >= 1 expected match for the mode's pattern and contains a multi-byte character, a CRLF, "
-                 "a >= 600 column line or a match spanning two lines.")
-                % (space_text, len(contents), per_dir, len(modes), maxfiles, len(groups_b), len(modes_b)),
+                 "a >= 600 column line or a match spanning two lines. html sweep: the contents of <= 2 line kinds as the body of a <script> element "
+                 "(%d .html files) X scan -r with a JavaScript rule (with fix; without fix and -U) X 3 styles.")
+                % (space_text, len(contents), per_dir, len(modes), maxfiles, len(groups_b), len(modes_b), len(small)),
         "exhaustive": True,
         "samples": samples,
         "bounds": {"content_spaces": [{"line_kinds": [k[0] for k in ks], "max_line_kinds_per_file": m} for ks, m in spaces],
@@ -671,7 +685,7 @@ def main(argv):
         "expected number of records = number of planted calls matching the pattern (foo($A): one-argument calls; foo($$$ARGS): all calls); no nested calls planted",
         "scan --json prints no context lines (JSONPrinter gets no context in scan); only run takes -A/-B/-C for JSON",
         "plain-report rows that are not of the form path:line:text (only `--` separators observed) are not judged",
-        "language JavaScript only; files are valid UTF-8 without BOM and without bare \\r",
+        "languages: JavaScript, and JavaScript embedded in an html <script> element; files are valid UTF-8 without BOM",
     ]
     return rep.finish("exploration", coverage, assumptions)
 
